@@ -15,6 +15,7 @@ import (
 	"github.com/corazawaf/coraza/v3/experimental/plugins/plugintypes"
 	"github.com/corazawaf/coraza/v3/internal/collections"
 	"github.com/corazawaf/coraza/v3/internal/environment"
+	stringsutil "github.com/corazawaf/coraza/v3/internal/strings"
 )
 
 type multipartBodyProcessor struct{}
@@ -49,8 +50,8 @@ func (mbp *multipartBodyProcessor) ProcessRequest(reader io.Reader, v plugintype
 			return err
 		}
 		partName := p.FormName()
-		for key, values := range p.Header {
-			for _, value := range values {
+		for _, key := range stringsutil.SortedKeys(p.Header) {
+			for _, value := range p.Header[key] {
 				headersNames.Add(partName, fmt.Sprintf("%s: %s", key, value))
 			}
 		}
